@@ -55,6 +55,7 @@ package ucfg
 //@ func (*fields).delAt
 //@ props C12
 //@ requires f != nil
+//@ modifies f.a, elems(f.a)
 //@ ensures [oob] !(0 <= i && i < len(old(f.a))) ==> !result && f.a == old(f.a)
 //@ ensures [len] (0 <= i && i < len(old(f.a))) ==> result && len(f.a) == len(old(f.a)) - 1
 //@ ensures [prefix] (0 <= i && i < len(old(f.a))) ==> forall j int :: 0 <= j && j < i ==> f.a[j] == old(f.a[j])
@@ -533,16 +534,23 @@ package ucfg
 //@ ensures (err == nil) == toStringOk(self)
 //@ ensures err == nil ==> s == toStringVal(self)
 
-//@ func raiseConversion
+// about(e): the setting a ucfg.Error names (its path and source are taken from this value's context and
+// metadata by the raise* constructors, trusted); reasonOf(e): the wrapped reason.
+//@ ghost func about(e error) value
+//@ ghost func reasonOf(e error) error
+
+//@ func raiseConversion :: opts, v, err, to -> result
 //@ trusted
 //@ pure
-//@ ensures result != nil
+//@ ensures result != nil && about(result) == v && reasonOf(result) == err
 
 //@ pred fitsInt(x int64, bits int) := (bits == 8 ==> -128 <= x && x <= 127) && (bits == 16 ==> -32768 <= x && x <= 32767) && (bits == 32 ==> -2147483648 <= x && x <= 2147483647)
 //@ pred fitsUint(x uint64, bits int) := (bits == 8 ==> x <= 255) && (bits == 16 ==> x <= 65535) && (bits == 32 ==> x <= 4294967295)
 
 //@ func reifyInt
-//@ props C03
+//@ props C03 C14
+//@ tagged-only C14
+//@ ensures [names_setting @C14] err != nil ==> about(err) == val
 //@ mode bv
 //@ requires val != nil && t != nil
 //@ requires tbits(t) == 8 || tbits(t) == 16 || tbits(t) == 32 || tbits(t) == 64
@@ -552,7 +560,9 @@ package ucfg
 //@ ensures [accept] toIntOk(val) && fitsInt(toIntVal(val), tbits(t)) ==> err == nil
 
 //@ func reifyUint
-//@ props C03
+//@ props C03 C14
+//@ tagged-only C14
+//@ ensures [names_setting @C14] err != nil ==> about(err) == val
 //@ mode bv
 //@ requires val != nil && t != nil
 //@ requires tbits(t) == 8 || tbits(t) == 16 || tbits(t) == 32 || tbits(t) == 64
@@ -562,7 +572,9 @@ package ucfg
 //@ ensures [accept] toUintOk(val) && fitsUint(toUintVal(val), tbits(t)) ==> err == nil
 
 //@ func reifyFloat
-//@ props C03
+//@ props C03 C14
+//@ tagged-only C14
+//@ ensures [names_setting @C14] err != nil ==> about(err) == val
 //@ mode bv
 //@ requires val != nil && t != nil
 //@ ensures [ok] err == nil ==> toFloatOk(val) && !rvOverflowFloat(t, toFloatVal(val)) && rvType(result) == t && same(rvFloat(result), toFloatVal(val))
@@ -570,7 +582,9 @@ package ucfg
 //@ ensures [range] toFloatOk(val) && rvOverflowFloat(t, toFloatVal(val)) ==> err != nil
 
 //@ func reifyBool
-//@ props C03
+//@ props C03 C14
+//@ tagged-only C14
+//@ ensures [names_setting @C14] err != nil ==> about(err) == val
 //@ mode bv
 //@ requires val != nil && t != nil
 //@ ensures [ok] err == nil ==> toBoolOk(val) && rvType(result) == t && rvBool(result) == toBoolVal(val)
@@ -578,16 +592,20 @@ package ucfg
 
 //@ func convertErr
 //@ props C03 C14
+//@ tagged-only C14
 //@ pure
 //@ ensures [iff] (result == nil) == (err == nil)
+//@ ensures [names_setting @C14] err != nil ==> about(result) == v && reasonOf(result) == err
 
-//@ func raiseInvalidDuration
+//@ func raiseInvalidDuration :: v, err -> result
 //@ trusted
 //@ pure
-//@ ensures result != nil
+//@ ensures result != nil && about(result) == v
 
 //@ func reifyDuration :: opts, val, t -> result, err
-//@ props C03
+//@ props C03 C14
+//@ tagged-only C14
+//@ ensures [names_setting @C14] err != nil ==> about(err) == val
 //@ mode bv
 //@ requires val != nil
 //@ requires typeof(val) == *cfgInt ==> val.(*cfgInt) != nil
@@ -894,3 +912,102 @@ package ucfg
 //@ ensures [unnamed_subtree] opts.fieldHandlingTree != nil && err == nil && !fhOk(opts.fieldHandlingTree, fieldName, idx) ==> r.fieldHandlingTree == iwSpec(fhChild(opts.fieldHandlingTree, fieldName, idx), opts.fieldHandlingTree)
 //@ ensures [others] err == nil ==> r.maxIdx == opts.maxIdx && r.pathSep == opts.pathSep && r.enableNumKeys == opts.enableNumKeys && r.varexp == opts.varexp && r.meta == opts.meta
 //@ ensures [fresh_or_same] err == nil ==> r == opts || fresh(r)
+
+// ---------------------------------------------------------------- C12: field operations on one node
+
+//@ func (namedField).GetValue :: n, opts, elem -> r, err
+//@ props C12
+//@ requires elem != nil
+//@ ensures [noobj] cfgEval(elem) == nil ==> err != nil && r == nil
+//@ ensures [hit] cfgEval(elem) != nil && has(cfgEval(elem).fields.d, n.name) ==> err == nil && r == cfgEval(elem).fields.d[n.name]
+//@ ensures [absent] cfgEval(elem) != nil && !has(cfgEval(elem).fields.d, n.name) ==> err == nil && r == nil
+
+//@ func (namedField).SetValue :: n, opts, elem, v -> err
+//@ props C12
+//@ requires elem != nil && v != nil
+//@ requires typeof(elem) == cfgSub ==> elem.(cfgSub).c != nil && elem.(cfgSub).c.fields != nil
+//@ ensures [noobj] typeof(elem) != cfgSub ==> err != nil
+//@ ensures [ok] typeof(elem) == cfgSub ==> err == nil
+
+//@ func (namedField).Remove :: n, opts, elem -> removed, err
+//@ props C12
+//@ requires elem != nil
+//@ requires typeof(elem) == cfgSub ==> elem.(cfgSub).c != nil && elem.(cfgSub).c.fields != nil
+//@ ensures [noobj] typeof(elem) != cfgSub ==> err != nil && !removed
+//@ ensures [removed] typeof(elem) == cfgSub ==> err == nil && removed == old(has(elem.(cfgSub).c.fields.d, n.name)) && !has(elem.(cfgSub).c.fields.d, n.name)
+//@ ensures [others] typeof(elem) == cfgSub ==> forall k string :: k != n.name ==> has(elem.(cfgSub).c.fields.d, k) == old(has(elem.(cfgSub).c.fields.d, k)) && (has(elem.(cfgSub).c.fields.d, k) ==> elem.(cfgSub).c.fields.d[k] == old(elem.(cfgSub).c.fields.d[k]))
+
+//@ func (idxField).Remove :: i, opts, elem -> removed, err
+//@ props C12
+//@ requires elem != nil
+//@ requires typeof(elem) == cfgSub ==> elem.(cfgSub).c != nil && elem.(cfgSub).c.fields != nil
+//@ ensures [noobj] typeof(elem) != cfgSub ==> err != nil && !removed
+//@ ensures [oob] typeof(elem) == cfgSub && !(0 <= i.i && i.i < len(old(elem.(cfgSub).c.fields.a))) ==> err == nil && !removed
+//@ ensures [shift] typeof(elem) == cfgSub && 0 <= i.i && i.i < len(old(elem.(cfgSub).c.fields.a)) ==> err == nil && removed && len(elem.(cfgSub).c.fields.a) == len(old(elem.(cfgSub).c.fields.a)) - 1
+
+//@ func (*Config).HasField :: c, name -> r
+//@ props C12
+//@ requires c != nil && c.fields != nil
+//@ pure
+//@ ensures [spec] r == has(c.fields.d, name)
+
+//@ func (*Config).IsDict :: c -> r
+//@ props C12
+//@ requires c != nil && c.fields != nil
+//@ pure
+//@ ensures [spec] r == (c.fields.d != nil)
+
+//@ func (*Config).IsArray :: c -> r
+//@ props C12
+//@ requires c != nil && c.fields != nil
+//@ pure
+//@ ensures [spec] r == (c.fields.a != nil)
+
+// ---------------------------------------------------------------- C14: every error leaving the exported API is a ucfg.Error
+
+//@ iface value.Len :: self, opts -> n, err
+
+//@ func (*Config).CountField :: c, name, opts -> n, err
+//@ props C12 C14
+//@ tagged-only C14 C12
+//@ requires c != nil && c.fields != nil
+//@ requires forall k string :: has(c.fields.d, k) ==> c.fields.d[k] != nil
+//@ ensures [typed @C14] isTyped(err)
+//@ ensures [all @C12] name == "" ==> err == nil && n == len(old(c.fields.a)) + len(old(c.fields.d))
+//@ ensures [missing @C12] name != "" && !old(has(c.fields.d, name)) ==> err != nil
+
+//@ func (*Config).Child :: c, name, idx, opts -> r, err
+//@ props C14
+//@ requires c != nil
+//@ ensures [typed] isTyped(err)
+
+//@ func (*Config).Has :: c, name, idx, options -> r, err
+//@ props C14
+//@ requires c != nil
+//@ ensures [typed] isTyped(err)
+
+//@ func (cfgPath).Remove :: p, cfg, opt -> r, err
+//@ props C14
+//@ nonil
+//@ requires cfg != nil && len(p.fields) >= 1
+//@ requires forall j int :: 0 <= j && j < len(p.fields) ==> p.fields[j] != nil
+//@ ensures [typed] isTyped(err)
+//@ loop 1 invariant len(fields) >= 1
+//@ loop 1 invariant forall j int :: 0 <= j && j < len(fields) ==> fields[j] != nil
+//@ loop 1 invariant cur != nil
+//@ loop 1 decreases len(fields)
+
+//@ iface field.Remove :: self, opts, elem -> r, err
+
+//@ func (*Config).Remove :: c, name, idx, options -> r, err
+//@ props C14 C12
+//@ requires c != nil
+//@ ensures [typed @C14] isTyped(err)
+
+//@ func raisePathErr
+//@ trusted
+//@ pure
+//@ ensures result != nil
+
+//@ iface value.meta :: self -> r
+//@ pure
